@@ -10,5 +10,12 @@ PROP="${1:?property id}"
 TIER="${2:-quick}"
 REPO="${EXO_REPO:-/repo}"
 "$HERE/build.sh" >/dev/null || { echo "exostatic: build failed"; exit 2; }
-exec "$HERE/bin/exostatic" -repo "$REPO" -prop "$PROP" -tier "$TIER" \
+"$HERE/bin/exostatic" -repo "$REPO" -prop "$PROP" -tier "$TIER" \
   -evidence "$HERE/evidence/$PROP.json" -findings "$HERE/known_findings.json"
+RC=$?
+if [ "$TIER" = "thorough" ] && [ $RC -ne 2 ]; then
+  # thorough: additionally replay the property's positive controls (hand-broken rule instances) in a
+  # private copy of the current tree; recorded in the evidence, never changes the verdict
+  python3 "$HERE/selftest/controls.py" "$PROP" "$REPO" || true
+fi
+exit $RC
